@@ -113,6 +113,22 @@ func oneRun(c *Ctx, seed int64) (bool, error) {
 	p.Do(0, agenth.Op{Kind: "ST", Ctl: roleA, A: 2, B: 2})
 	p.Do(1, agenth.Op{Kind: "ST", Ctl: roleB, A: 1, B: 1})
 	p.Signal(0, 201)
+	// trickle: B may learn A's candidates only after A's first checks have arrived (peer-reflexive
+	// candidates on B, later superseded by the signalled ones)
+	lateSignal := r.Intn(3) == 0
+	if lateSignal {
+		for k := 0; k < 1+r.Intn(3); k++ {
+			p.Do(0, agenth.Op{Kind: "TK"})
+			p.DeliverAll()
+			p.Do(1, agenth.Op{Kind: "TK"})
+			if r.Intn(2) == 0 {
+				p.DeliverAll()
+			} else {
+				p.Lossy()
+			}
+		}
+		c.Count("run:late_signalling_to_B")
+	}
 	p.Signal(1, 201)
 	lossy := r.Intn(4)
 	for k := 0; k < lossy; k++ {
